@@ -77,6 +77,7 @@ DEFS = {
     # the same sum under the values reported by the last solve
     'solsum_upto': (['row', 'n'], 'Sum(q, n, solved(row[q].lp_var))', 'parametric'),
     'solsum': (['row'], 'solsum_upto(row, len(row))'),
+    'sol_terms': (['row', 'n'], 'lam(q, n, solved(row[q].lp_var))', 'parametric'),
     # the same sum for an ARBITRARY weight W of the list entries (W is uninterpreted where the lists are built; a composition lemma
     # instantiates it with the variable's value) and its summands as a list (binding of SUM/ext when a list grows)
     'wsum': (['row'], 'Sum(q, len(row), W(row[q]))', 'parametric'),
